@@ -758,9 +758,11 @@ var serialBW6 sync.Mutex
 
 func solveOuter(circ, asg frontend.Circuit, field *big.Int, serial bool) outerVerdict {
 	ch := make(chan error, 1)
+	if serial {
+		serialBW6.Lock() // before the timer starts: waiting for another run is not a hang
+	}
 	go func() {
 		if serial {
-			serialBW6.Lock()
 			defer serialBW6.Unlock()
 		}
 		var err error
@@ -1402,9 +1404,9 @@ func TestEmulated(t *testing.T) {
 	setup(rec)
 	// one engine run costs seconds (minutes on a loaded machine); bw6-761>bn254 is the most expensive
 	// and its runs are serialised (see serialBW6), so it is drawn less often
-	ps := []string{"bn254>bn254", "bn254>bn254", "bls12-381>bn254", "bls12-381>bn254", "bw6-761>bn254"}
+	ps := []string{"bn254>bn254", "bn254>bn254", "bn254>bn254", "bls12-381>bn254", "bls12-381>bn254", "bls12-381>bn254", "bw6-761>bn254"}
 	g := genCase(genCfg{schemes: []string{"groth16", "plonk"}, pairs: ps, minT: 2, maxT: 3, firstGenuine: true})
-	rec.Check(t, "rec", ev.N(3, 96), func(rt *rapid.T) {
+	rec.Check(t, "rec", ev.N(3, 64), func(rt *rapid.T) {
 		c := g.Draw(rt, "case")
 		rec.Report(rt, "rec", c, run(c, rec))
 	})
